@@ -45,6 +45,12 @@ type HarnessSpec struct {
 	Stubs    []string            `json:"stubs,omitempty"`  // assumptions / stubs in force (text)
 	Hooks    []string            `json:"hooks,omitempty"`  // functions rewritten by the hook injector
 	Oracle   string              `json:"oracle,omitempty"`
+	Gen      []GenSpec           `json:"gen,omitempty"` // generated overlay files (native helper tools)
+}
+
+type GenSpec struct {
+	Tool string `json:"tool"` // binary under /verif/bin
+	File string `json:"file"` // file name inside the harness package
 }
 
 type Index struct {
@@ -206,6 +212,25 @@ func cmdCheck(args []string) {
 	overlay, err := buildOverlay(pkgDirs)
 	if err != nil {
 		fail("overlay: " + err.Error())
+	}
+	genDone := map[string]bool{}
+	for hi := range idx.Harnesses {
+		h := &idx.Harnesses[hi]
+		if !pkgSet[h.Pkg] {
+			continue
+		}
+		for _, g := range h.Gen {
+			key := h.Pkg + "/" + g.File
+			if genDone[key] {
+				continue
+			}
+			genDone[key] = true
+			out, err := exec.Command(filepath.Join(verifRoot, "bin", g.Tool)).Output()
+			if err != nil {
+				fail("generator " + g.Tool + ": " + err.Error())
+			}
+			overlay[filepath.Join(repoRoot, h.Pkg, "zz_"+g.File)] = out
+		}
 	}
 	var patterns []string
 	for _, p := range pkgDirs {
